@@ -80,7 +80,25 @@ func verifRouterGen(r *vh.Rng, o *vh.Out, id string) {
 	used := map[string]bool{}
 	steps := 4 + r.Intn(20)
 	if r.Chance(8) {
-		steps = 260 // more NICs than addresses
+		steps = 300 // more NICs than addresses
+	}
+	if r.Chance(5) {
+		// the end of the pool: a few static addresses near .254 (and elsewhere), then automatic
+		// attachments until well past exhaustion
+		var st []string
+		for _, last := range []int{254, 253, 252, 200, 2} {
+			if r.Chance(50) {
+				st = append(st, fmt.Sprintf("%s.%d", base, last))
+			}
+		}
+		for _, ip := range st {
+			op := "static " + ip
+			o.Op(op, verifRouterOp(rt, vh.Fields(op)), verifRouterState(rt))
+		}
+		for k := 0; k < 258; k++ {
+			o.Op("auto", verifRouterOp(rt, []string{"auto"}), verifRouterState(rt))
+		}
+		return
 	}
 	for k := 0; k < steps; k++ {
 		var op string
